@@ -12,7 +12,6 @@ use ckc_rs::cards::two::Two;
 use ckc_rs::cards::HandValidator;
 use proptest::prelude::*;
 use serde_json::{json, Value};
-use std::cell::{Cell, RefCell};
 
 fn order_clause(a: u32, b: u32) -> Result<(), String> {
     // a, b are crate constants looked up through the deck (C10 ties them to the layout)
@@ -123,41 +122,35 @@ pub fn run(run: &mut Run) -> PResult {
     }
     // R
     {
-        let cnt = Cell::new(0u64);
-        let nt = Cell::new(0u64);
-        let frozen = Cell::new(false);
-        let distinct = RefCell::new(engine::Distinct::new());
-        let cases = if run.tier == Tier::Thorough { 3_000_000 } else { 300_000 };
+        let st = engine::RStats::new();
+        let cases = if run.tier == Tier::Thorough { 16_000_000 } else { 2_000_000 };
+        let make = || {
         let word = prop_oneof![
             5 => any::<u32>(),
             4 => (0usize..52).prop_map(|i| card::DECK[i]),
             1 => (0usize..52, 1u32..8).prop_map(|(i, m)| card::DECK[i] | (m << 29)),
             1 => prop_oneof![Just(0u32), Just(u32::MAX), Just(1u32), Just(u32::MAX - 1)],
         ];
-        let strat = (2usize..=7).prop_flat_map(move |n| (proptest::collection::vec(word.clone(), n), proptest::collection::vec(proptest::option::weighted(0.2, 0usize..7), n))).prop_map(|(mut ws, copies)| {
+        (2usize..=7).prop_flat_map(move |n| (proptest::collection::vec(word.clone(), n), proptest::collection::vec(proptest::option::weighted(0.2, 0usize..7), n))).prop_map(|(mut ws, copies)| {
             for i in 1..ws.len() {
                 if let Some(from) = copies[i] {
                     ws[i] = ws[from % i];
                 }
             }
             ws
-        });
-        let res = pt::run(run.seed, 0xC11, cases, &strat, |ws| {
-            if !frozen.get() {
-                cnt.set(cnt.get() + 1);
-                let mut s = ws.clone();
-                s.sort_unstable();
-                let special = s.windows(2).any(|p| p[0] == p[1]) || ws.iter().any(|w| !card::is_card(*w));
-                if distinct.borrow_mut().insert(hash_words(&ws)) && special {
-                    nt.set(nt.get() + 1);
-                }
-            }
+        })
+        };
+        let res = pt::run_sharded(run.seed, 0xC11, cases, &make, &|ws: Vec<u32>| {
+            let mut s = ws.clone();
+            s.sort_unstable();
+            let special = s.windows(2).any(|p| p[0] == p[1]) || ws.iter().any(|w| !card::is_card(*w));
+            st.note(hash_words(&ws), special, Some(&format!("size {}", ws.len())), || json!({"input": card::render_hand(&ws)}));
             sort_clause(&ws).map_err(|e| {
-                frozen.set(true);
+                st.freeze();
                 e
             })
         });
-        run.generator("proptest arrays of arbitrary words, sizes 2..7", "proptest", None, cnt.get(), nt.get(), "raw u32, cards, flagged cards, extremes; 20% of slots copy an earlier slot");
+        st.flush(run, "proptest arrays of arbitrary words, sizes 2..7", "proptest (8 shards)", None, "raw u32, cards, flagged cards, extremes; 20% of slots copy an earlier slot");
         if let Err(f) = res {
             let m = sort_clause(&f.value).err().unwrap_or_default();
             return run.violation("C11.sort", &card::render_hand(&f.value), hand_json(&f.value), &m);
